@@ -483,6 +483,12 @@ class Engine:
             while len(ops) > 1:
                 k = self._known_len(ops[0])
                 if k is None:
+                    # an operand of symbolic length that provably lies before the slice
+                    lk = z3.Length(ops[0])
+                    if st is not None and self.entails(st, off >= lk):
+                        off = z3.simplify(off - lk)
+                        ops = ops[1:]
+                        continue
                     break
                 new_off = z3.simplify(off - k)
                 ok = (z3.is_int_value(new_off) and new_off.as_long() >= 0) or \
@@ -491,12 +497,14 @@ class Engine:
                     break
                 off = new_off
                 ops = ops[1:]
-                skipped += k
+                skipped += k if isinstance(k, int) else 0
             # a slice that consists exactly of leading operands of known length is their concatenation
             if z3.is_int_value(off) and off.as_long() == 0 and z3.is_int_value(ln):
                 want, got, take = ln.as_long(), 0, []
                 for o_ in ops:
                     k = self._known_len(o_)
+                    if k is None and st is not None and want - got > 0 and self.entails(st, z3.Length(o_) == want - got):
+                        k = want - got          # an operand whose length is known from the path condition
                     if k is None or got + k > want:
                         break
                     take.append(o_)
